@@ -14,6 +14,7 @@ order, `inflight s p` the element producer `p` is carrying through push() right 
 import Osmium.Lemmas.QueueSM
 import Osmium.Lemmas.PoolSM
 import Osmium.Lemmas.PoolSM2Dtor
+import Osmium.Lemmas.PoolSM2Rank2
 
 namespace Osmium.C19
 
@@ -464,6 +465,28 @@ theorem pool_destructor_joins_after_queued_tasks (c : PoolSM.Cfg) (s : PoolSM.St
         exact ⟨w, t, hm⟩
       · rw [hnofl] at hf; cases hf
 
+/-- Destroying the pool joins all workers — as a PROGRESS statement (threads distinct).  From
+    `dtorStart` on, in every reachable state and for every interleaving:
+    (1) every fair step of ANY thread strictly decreases the natural-number measure
+        `PoolSM.rank` (fair = not a time-out of push()'s timed wait on a still-full queue, not
+        a spurious wake-up of a consumer, not a client reading a future — see `PoolSM.Fair`);
+    (2) as long as the destructor has not returned some fair step is enabled (no stuck state,
+        also for the adversarial condition variable without spurious wake-ups);
+    (3) hence every run of fair steps has at most `rank` steps, and a run that cannot be
+        extended by a fair step ends with the destructor returned — then, by
+        `pool_destructor_joins_after_queued_tasks`, all workers are joined and every queued
+        task has run. -/
+theorem pool_destructor_terminates (c : PoolSM.Cfg) (hnd : c.workers.Nodup) (s : PoolSM.State)
+    (h : (PoolSM.machine c).Reachable s) (hd : s.dtor ≠ .notStarted) :
+    (∀ e s', (PoolSM.machine c).Step s e s' → PoolSM.Fair c s e → PoolSM.rank c s' < PoolSM.rank c s) ∧
+    (s.dtor ≠ .done → ∃ e s', (PoolSM.machine c).Step s e s' ∧ PoolSM.Fair c s e) ∧
+    (∀ es s', PoolSM.FairRun c s es s' → es.length ≤ PoolSM.rank c s ∧
+      ((¬ ∃ e s'', (PoolSM.machine c).Step s' e s'' ∧ PoolSM.Fair c s' e) → s'.dtor = .done)) :=
+  ⟨fun e s' hst hf => PoolSM.dtor_rank_decreases c hnd s s' e h hd hst hf,
+   fun hdone => PoolSM.dtor_phase_fair_enabled c hnd s h hd hdone,
+   fun es s' hr => ⟨PoolSM.fair_run_length_le c hnd s s' es h hd hr,
+     fun hmax => (PoolSM.dtor_phase_terminates c hnd s s' es h hd hr hmax).1⟩⟩
+
 /-- Step-local complement of `pool_exactly_once`: running a job is only possible for the worker
     that holds it; the step executes it once (counter + 1), stores its outcome in the shared
     state of its future, touches no other job, and the worker gives the job up (back to the
@@ -589,5 +612,11 @@ example : ∃ s, (PoolSM.machine ⟨[1, 2], ⟨1, false⟩⟩).Reachable s ∧
       && decide (s.runCount 7 = 1) && decide (s.runCount 8 = 1)
       && decide (s.future 8 = some (.exc 3)) && decide (s.q.items = [])) = true :=
   pool_trace_witness _ poolLife _ (by decide)
+
+/-- the hypotheses of `pool_destructor_terminates` (distinct worker threads, destructor started,
+    not yet returned) are satisfiable: the state right after `dtorStart`, one worker holding a job -/
+example : [1, 2].Nodup ∧ ∃ s, (PoolSM.machine ⟨[1, 2], ⟨1, false⟩⟩).Reachable s ∧
+    (decide (s.dtor = .pushing 0) && decide (s.wpc 2 = .running 8 (.exc 3))) = true :=
+  ⟨by decide, pool_trace_witness _ (poolLife.take 17) _ (by decide)⟩
 
 end Osmium.C19
